@@ -40,7 +40,14 @@ type InlineReport struct {
 // inlinable: a source function (not a closure) with a body, without defer or
 // recover (their meaning depends on the frame), with at least one return.
 func inlinable(fn *ssa.Function) bool {
-	if fn == nil || fn.Parent() != nil || len(fn.Blocks) == 0 || fn.Synthetic != "" || fn.Recover != nil {
+	if fn == nil || fn.Parent() != nil {
+		return false
+	}
+	return inlinableBody(fn)
+}
+
+func inlinableBody(fn *ssa.Function) bool {
+	if fn == nil || len(fn.Blocks) == 0 || fn.Synthetic != "" || fn.Recover != nil {
 		return false
 	}
 	if fn.Signature.Variadic() && false {
@@ -271,6 +278,12 @@ func newBlock(parent *ssa.Function, comment string) *ssa.BasicBlock {
 }
 
 func inlineCall(caller *ssa.Function, call *ssa.Call, callee *ssa.Function) error {
+	return inlineCallWith(caller, call, callee, nil)
+}
+
+// inlineCallWith: extra maps further values of the callee (its free variables)
+// to values of the caller.
+func inlineCallWith(caller *ssa.Function, call *ssa.Call, callee *ssa.Function, extra map[ssa.Value]ssa.Value) error {
 	B := call.Block()
 	idx := -1
 	for i, in := range B.Instrs {
@@ -284,6 +297,9 @@ func inlineCall(caller *ssa.Function, call *ssa.Call, callee *ssa.Function) erro
 	vmap := map[ssa.Value]ssa.Value{}
 	for i, p := range callee.Params {
 		vmap[p] = call.Call.Args[i]
+	}
+	for k, v := range extra {
+		vmap[k] = v
 	}
 	bmap := map[*ssa.BasicBlock]*ssa.BasicBlock{}
 	var clones []*ssa.BasicBlock
@@ -642,3 +658,252 @@ func checkFunction(fn *ssa.Function) error {
 }
 
 var _ = types.Typ
+
+// ---------------------------------------------------------------------------
+// Local helper closures.
+//
+// `addSpec := func(spec *Spec) {...}` declared in a function and called from it
+// or from a sibling closure is the closure form of extract-function. A closure
+// whose key (enclosing function + parameter/result types) is not in the known
+// list is expanded at its call sites like a helper function; its free variables
+// are the cells of the enclosing function, which the calling closure either
+// already captures or is made to capture (a new free variable bound to the same
+// cell).
+
+// ClosureKey identifies an anonymous function by its enclosing function and the
+// types of its signature.
+func (u *Universe) ClosureKey(fn *ssa.Function) string {
+	sig := fn.Signature
+	s := "func("
+	for i := 0; i < sig.Params().Len(); i++ {
+		if i > 0 {
+			s += ","
+		}
+		if sig.Variadic() && i == sig.Params().Len()-1 {
+			s += "..."
+		}
+		s += types.TypeString(sig.Params().At(i).Type(), nil)
+	}
+	s += ")"
+	for i := 0; i < sig.Results().Len(); i++ {
+		s += " " + types.TypeString(sig.Results().At(i).Type(), nil)
+	}
+	return u.funcKey(topLevel(fn)) + "$" + s
+}
+
+// singleAssignedClosure: cell holds, for its whole life, the closure created by one
+// MakeClosure (one store, otherwise only loads and captures).
+func singleAssignedClosure(cell *ssa.Alloc) *ssa.MakeClosure {
+	if cell.Referrers() == nil {
+		return nil
+	}
+	var mc *ssa.MakeClosure
+	for _, r := range *cell.Referrers() {
+		switch x := r.(type) {
+		case *ssa.Store:
+			if x.Addr != ssa.Value(cell) || mc != nil {
+				return nil
+			}
+			m, ok := x.Val.(*ssa.MakeClosure)
+			if !ok {
+				return nil
+			}
+			mc = m
+		case *ssa.UnOp, *ssa.MakeClosure, *ssa.DebugRef:
+		default:
+			return nil
+		}
+	}
+	return mc
+}
+
+func uniqueSite(parent, fn *ssa.Function) *ssa.MakeClosure {
+	var site *ssa.MakeClosure
+	for _, b := range parent.Blocks {
+		for _, in := range b.Instrs {
+			if mc, ok := in.(*ssa.MakeClosure); ok && mc.Fn == ssa.Value(fn) {
+				if site != nil {
+					return nil
+				}
+				site = mc
+			}
+		}
+	}
+	return site
+}
+
+// InlineUnknownClosures expands calls of local helper closures that are not in the
+// known list. Returns what was expanded.
+func (u *Universe) InlineUnknownClosures(known func(key string) bool) ([]InlineReport, error) {
+	var rep []InlineReport
+	var repo []*ssa.Function
+	for fn := range ssautil.AllFunctions(u.Prog) {
+		if u.IsRepoFunc(fn) && len(fn.Blocks) > 0 {
+			repo = append(repo, fn)
+		}
+	}
+	sort.Slice(repo, func(i, j int) bool { return repo[i].String() < repo[j].String() })
+	touched := map[*ssa.Function]bool{}
+	for _, P := range repo {
+		for _, F := range P.AnonFuncs {
+			if !inlinableBody(F) || known(u.ClosureKey(F)) {
+				continue
+			}
+			mcF := uniqueSite(P, F)
+			if mcF == nil || mcF.Referrers() == nil {
+				continue
+			}
+			// the cell the closure lives in (if any)
+			var cell *ssa.Alloc
+			direct := true
+			for _, r := range *mcF.Referrers() {
+				switch x := r.(type) {
+				case *ssa.Store:
+					a, ok := x.Addr.(*ssa.Alloc)
+					if !ok || x.Val != ssa.Value(mcF) || singleAssignedClosure(a) != mcF {
+						direct = false
+					} else {
+						cell = a
+					}
+				case *ssa.Call:
+					if x.Call.Value != ssa.Value(mcF) {
+						direct = false // passed as an argument
+					}
+				case *ssa.DebugRef:
+				default:
+					direct = false
+				}
+			}
+			if !direct {
+				continue
+			}
+			// F must not call itself
+			selfRef := false
+			for _, b := range F.Blocks {
+				for _, in := range b.Instrs {
+					for _, op := range in.Operands(nil) {
+						if *op == ssa.Value(F) {
+							selfRef = true
+						}
+					}
+				}
+			}
+			if selfRef {
+				continue
+			}
+			// call sites in P
+			type site struct {
+				in    *ssa.Function
+				call  *ssa.Call
+				extra map[ssa.Value]ssa.Value
+			}
+			var sites []site
+			okAll := true
+			for _, b := range P.Blocks {
+				for _, in := range b.Instrs {
+					call, ok := in.(*ssa.Call)
+					if !ok || call.Call.IsInvoke() {
+						continue
+					}
+					v := call.Call.Value
+					hit := v == ssa.Value(mcF)
+					if ld, isLoad := v.(*ssa.UnOp); isLoad && cell != nil && ld.X == ssa.Value(cell) {
+						hit = true
+					}
+					if hit {
+						extra := map[ssa.Value]ssa.Value{}
+						for i, fv := range F.FreeVars {
+							extra[fv] = mcF.Bindings[i]
+						}
+						sites = append(sites, site{P, call, extra})
+					}
+				}
+			}
+			// call sites in sibling closures that capture the cell
+			if cell != nil {
+				for _, r := range *cell.Referrers() {
+					mcG, ok := r.(*ssa.MakeClosure)
+					if !ok {
+						continue
+					}
+					G, _ := mcG.Fn.(*ssa.Function)
+					if G == nil || G == F || uniqueSite(P, G) != mcG {
+						okAll = false
+						continue
+					}
+					var fvCell *ssa.FreeVar
+					for i, bv := range mcG.Bindings {
+						if bv == ssa.Value(cell) {
+							fvCell = G.FreeVars[i]
+						}
+					}
+					if fvCell == nil || fvCell.Referrers() == nil {
+						continue
+					}
+					for _, fr := range *fvCell.Referrers() {
+						ld, isLoad := fr.(*ssa.UnOp)
+						if !isLoad || ld.Referrers() == nil {
+							okAll = false
+							continue
+						}
+						for _, lr := range *ld.Referrers() {
+							call, isCall := lr.(*ssa.Call)
+							if !isCall || call.Call.Value != ssa.Value(ld) {
+								okAll = false // the closure value escapes
+								continue
+							}
+							// F's free variables as seen from G
+							extra := map[ssa.Value]ssa.Value{}
+							for i, fv := range F.FreeVars {
+								bind := mcF.Bindings[i]
+								var gv *ssa.FreeVar
+								for j, bv := range mcG.Bindings {
+									if bv == bind {
+										gv = G.FreeVars[j]
+									}
+								}
+								if gv == nil {
+									gv = &ssa.FreeVar{}
+									setHidden(gv, "name", fv.Name())
+									setHidden(gv, "typ", fv.Type())
+									setHidden(gv, "pos", fv.Pos())
+									setHidden(gv, "parent", G)
+									setHidden(gv, "outer", bind)
+									G.FreeVars = append(G.FreeVars, gv)
+									mcG.Bindings = append(mcG.Bindings, bind)
+									touched[P] = true
+								}
+								extra[fv] = gv
+							}
+							sites = append(sites, site{G, call, extra})
+						}
+					}
+				}
+			}
+			if !okAll || len(sites) == 0 {
+				continue
+			}
+			for _, st := range sites {
+				if len(st.call.Call.Args) != len(F.Params) {
+					continue
+				}
+				rep = append(rep, InlineReport{Caller: u.RelName(st.in), Callee: u.RelName(F), Pos: u.Pos(st.call.Pos())})
+				if err := inlineCallWith(st.in, st.call, F, st.extra); err != nil {
+					return rep, fmt.Errorf("inlining closure %s into %s: %v", F, st.in, err)
+				}
+				touched[st.in] = true
+			}
+		}
+	}
+	for _, fn := range repo {
+		if touched[fn] {
+			rebuildReferrers(fn)
+			cleanup(fn)
+			ThreadJumps(fn)
+			if err := checkFunction(fn); err != nil {
+				return rep, fmt.Errorf("after closure expansion in %s: %v", fn, err)
+			}
+		}
+	}
+	return rep, nil
+}
